@@ -129,6 +129,16 @@ func (g *Graph) InitFacts(n *Node, fields bool) map[string]bool {
 	// between — approximated by: assigned in any node dominated by the test and not dominating n is ignored only when
 	// no such assignment exists in the function at all besides those on the chain.
 	assignedOffChain := map[string]bool{}
+	assignedObjs := map[types.Object]bool{}
+	objOf := func(id *ast.Ident) types.Object {
+		if g.Info == nil {
+			return nil
+		}
+		if o := g.Info.Defs[id]; o != nil {
+			return o
+		}
+		return g.Info.Uses[id]
+	}
 	onChain := map[int]bool{}
 	for _, c := range chain {
 		onChain[c.ID] = true
@@ -143,20 +153,38 @@ func (g *Graph) InitFacts(n *Node, fields bool) map[string]bool {
 				for _, l := range s.Lhs {
 					if id, ok := ast.Unparen(l).(*ast.Ident); ok {
 						assignedOffChain[id.Name] = true
+						if o := objOf(id); o != nil {
+							assignedObjs[o] = true
+						}
 					}
 				}
 			}
 		case *ast.IncDecStmt:
 			if id, ok := ast.Unparen(s.X).(*ast.Ident); ok && y.Kind == KStmt {
 				assignedOffChain[id.Name] = true
+				if o := objOf(id); o != nil {
+					assignedObjs[o] = true
+				}
 			}
 		}
 	}
+	// the variables each key was built from (a shadowing variable of the same name is another variable)
+	keyObjs := map[string]map[string]types.Object{}
 	for i := len(chain) - 1; i >= 0; i-- {
 		nd := chain[i]
 		if (nd.Kind == KTrue || nd.Kind == KFalse) && nd.Of.Kind == KCond {
 			if key, neg, ok := g.CondKeyOf(nd.Of, fields); ok {
 				out[key] = (nd.Kind == KTrue) != neg
+				m := map[string]types.Object{}
+				ast.Inspect(nd.Of.Expr, func(x ast.Node) bool {
+					if id, ok := x.(*ast.Ident); ok {
+						if o := objOf(id); o != nil {
+							m[id.Name] = o
+						}
+					}
+					return true
+				})
+				keyObjs[key] = m
 			}
 		}
 		if len(out) > 0 {
@@ -165,10 +193,14 @@ func (g *Graph) InitFacts(n *Node, fields bool) map[string]bool {
 	}
 	for k := range out {
 		for w := range assignedOffChain {
-			if mentions(k, w) {
-				delete(out, k)
-				break
+			if !mentions(k, w) {
+				continue
 			}
+			if o, known := keyObjs[k][w]; known && !assignedObjs[o] {
+				continue // a different variable of the same name is assigned
+			}
+			delete(out, k)
+			break
 		}
 	}
 	return out
@@ -426,7 +458,7 @@ func (g *Graph) constText(text string) (string, bool) {
 	if g.consts == nil {
 		g.consts = map[string]string{}
 		for _, n := range g.Nodes {
-			if n.Kind != KCond || n.Expr == nil || g.Info == nil {
+			if (n.Kind != KCond && n.Kind != KCase) || n.Expr == nil || g.Info == nil {
 				continue
 			}
 			ast.Inspect(n.Expr, func(x ast.Node) bool {
